@@ -191,8 +191,8 @@ func analyseMapRange(mr mapRange) (findings []detFinding, accepted []string) {
 			}
 			nDef[o]++
 			if as.Tok == token.DEFINE && len(as.Lhs) == len(as.Rhs) {
-				if bt, isB := o.Type().Underlying().(*types.Basic); isB && bt.Info()&types.IsBoolean != 0 {
-					boolDef[o] = as.Rhs[i]
+				if _, isBasic := o.Type().Underlying().(*types.Basic); isBasic {
+					boolDef[o] = as.Rhs[i] // any local of a basic type: `keyLength := len(k)` as well as `better := a || b`
 				}
 			}
 		}
@@ -211,13 +211,15 @@ func analyseMapRange(mr mapRange) (findings []detFinding, accepted []string) {
 		case *ast.ParenExpr:
 			return &ast.ParenExpr{X: expandBools(x.X, depth)}
 		case *ast.UnaryExpr:
-			if x.Op == token.NOT {
-				return &ast.UnaryExpr{Op: token.NOT, X: expandBools(x.X, depth)}
-			}
+			return &ast.UnaryExpr{Op: x.Op, X: expandBools(x.X, depth)}
 		case *ast.BinaryExpr:
-			if x.Op == token.LAND || x.Op == token.LOR {
-				return &ast.BinaryExpr{X: expandBools(x.X, depth), Op: x.Op, Y: expandBools(x.Y, depth)}
+			return &ast.BinaryExpr{X: expandBools(x.X, depth), Op: x.Op, Y: expandBools(x.Y, depth)}
+		case *ast.CallExpr:
+			args := make([]ast.Expr, len(x.Args))
+			for i, a := range x.Args {
+				args[i] = expandBools(a, depth)
 			}
+			return &ast.CallExpr{Fun: x.Fun, Args: args, Ellipsis: x.Ellipsis}
 		}
 		return e
 	}
